@@ -5,6 +5,7 @@ for which the victim's *live* dispatch tables have no entry, the (real, authenti
 transport emits one such packet; the victim's complete reaction is judged at quiescence.
 """
 from vmc import core, enum, fixtures as F, connfix as CF
+from vmc import sched as S, vthreading
 from paramiko.common import MSG_NAMES, MSG_UNIMPLEMENTED
 
 PID = "C12"
@@ -13,18 +14,45 @@ META = {
     "technique": "bounded-exhaustive input enumeration on two live transports (event mode: one packet, "
                  "complete reaction judged at quiescence)",
     "text": "Every message type 0..255 without a handler in the victim's live dispatch tables x victim role "
-            "{client, server} x state {authenticated idle, authenticated with one open channel} x payload "
-            "{empty, 4 bytes, 64 filler bytes (+1 byte, 1 KiB, 40 KiB in thorough)}: one execution each on "
-            "two real Transports, plus chained executions sending all such types in a row. Oracle: exactly "
-            "one UNIMPLEMENTED reply carrying the offending packet's sequence number (none for type 3), "
-            "transport still active, global-request round trip and channel data still work.",
+            "{client, server} x state {authenticated idle, authenticated with one open channel, re-exchange begun "
+            "by the victim (its KEXINIT is out, the peer's has not arrived: the packet was in flight ahead of it)} "
+            "x payload {empty, 4 bytes, 64 filler bytes (+1 byte, 1 KiB, 40 KiB in thorough)}: one execution each "
+            "on two real Transports, plus chained executions sending all such types in a row, plus the "
+            "sequence-number dimension: the chain is replayed on a link aged so that the offending packets' "
+            "sequence numbers straddle 2^8, 2^16, 2^24, 2^31, 0xFF000000 and the 2^32 wrap. Oracle: exactly "
+            "one UNIMPLEMENTED reply whose body is exactly the uint32 sequence number of the offending packet "
+            "(none for type 3), transport still active, a begun re-exchange completes, global-request round trip "
+            "and channel data still work.",
     "note": "peer is a real paramiko Transport emitting the packet through its packetizer; default cipher suite; "
-            "strict-kex sequence numbering (reset after NEWKEYS) is what the sender's trace records",
+            "strict-kex sequence numbering (reset after NEWKEYS) is what the sender's trace records; the link is "
+            "aged by fast-forwarding the sender's outbound and the victim's inbound packet counter to the same "
+            "value while that direction is idle (the MACs keep verifying); in the re-exchange state the peer's "
+            "reader skips UNIMPLEMENTED (a paramiko peer that already expects a key-exchange packet would "
+            "otherwise drop the link itself); re-exchange states in which the victim expects one particular "
+            "packet have a handler expectation and are outside the quantifier",
     "design_ref": "4/C12",
 }
 
 ROLES = ("client", "server")
-STATES = ("idle", "chan")
+STATES = ("idle", "chan", "rekey")
+# sequence-number dimension: the chained packets straddle each of these boundaries of the 32-bit counter
+SEQ_BOUNDARIES = (("2^8", 1 << 8), ("2^16", 1 << 16), ("2^24", 1 << 24), ("2^31", 1 << 31),
+                  ("0xFF000000", 0xFF000000), ("2^32-wrap", 1 << 32))
+SEQ_ATTR_OUT = "_Packetizer__sequence_number_out"
+SEQ_ATTR_IN = "_Packetizer__sequence_number_in"
+
+
+class TolerantPacketizer(F.RecPacketizer):
+    """RecPacketizer whose reader can skip UNIMPLEMENTED (recorded in .rcvd all the same): the peer of
+    the re-exchange state must survive the victim's reply while it expects a key-exchange packet."""
+    swallow_unimplemented = False
+
+    def read_message(self):
+        while True:
+            ptype, m = F.RecPacketizer.read_message(self)
+            if ptype == MSG_UNIMPLEMENTED and self.swallow_unimplemented:
+                continue
+            return ptype, m
 
 
 def payloads(tier):
@@ -40,20 +68,47 @@ def cls_of(ptype):
     return "named-ptype" if ptype in MSG_NAMES else "ptype-not-in-MSG_NAMES"
 
 
-def execute(role, state, sends):
-    """One execution: bring the pair up, let the peer emit `sends` [(ptype, payload)], observe."""
+def execute(role, state, sends, age=None):
+    """One execution: bring the pair up, (age the link to sequence number `age`), (let the victim begin
+    a re-exchange), let the peer emit `sends` [(ptype, payload)], observe."""
     out = {}
 
     def body(s):
         srv = F.ScriptedServer(global_request=True)
-        p = F.Pair(server=srv).up()
+        p = F.Pair(server=srv, packetizer=TolerantPacketizer).up()
         c = sc = None
-        if state == "chan":
+        if state in ("chan", "rekey"):
             c, sc = p.session()
             c.settimeout(3.0)
             sc.settimeout(3.0)
         victim, peer, pside = (p.tc, p.ts, "s") if role == "client" else (p.ts, p.tc, "c")
+        v2p = p.c2s if role == "client" else p.s2c
         s.quiesce()
+        if age is not None:
+            # the peer->victim direction is idle: fast-forward both ends of it to the same packet counter
+            if getattr(peer.packetizer, SEQ_ATTR_OUT) != getattr(victim.packetizer, SEQ_ATTR_IN):
+                raise RuntimeError("C12 harness: link not idle, cannot age it")
+            setattr(peer.packetizer, SEQ_ATTR_OUT, age)
+            setattr(victim.packetizer, SEQ_ATTR_IN, age)
+        th = None
+        res = {}
+        if state == "rekey":
+            # the victim begins a re-exchange; its KEXINIT stays in flight, so whatever the peer sends now
+            # reaches the victim ahead of the peer's KEXINIT
+            peer.packetizer.swallow_unimplemented = True
+            v2p.gated = True
+
+            def rekey():
+                try:
+                    victim.renegotiate_keys()
+                    res["rekey"] = "ok"
+                except Exception as e:  # noqa
+                    res["rekey"] = "raised %s: %s" % (type(e).__name__, str(e)[:80])
+                    res["exc"] = e      # renegotiate_keys consumed the transport's saved exception
+            th = vthreading.Thread(target=rekey)
+            th.start()
+            s.quiesce()
+            out["in_rekey_window"] = bool(victim.in_kex and not victim.clear_to_send.is_set())
         out["unhandled"] = CF.unhandled_types(victim)
         out["expected_packet"] = tuple(victim._expected_packet)
         m0 = CF.mark(victim)
@@ -67,11 +122,23 @@ def execute(role, state, sends):
             seqs.append(CF.last_tx_seq(p.glog, pside))
             s.quiesce()
         out["seqs"] = seqs
+        if th is not None:
+            out["in_rekey_window"] = out["in_rekey_window"] and not victim._expected_packet
+            # the victim's KEXINIT (and its replies) reach the peer; the exchange runs to completion.
+            # Virtual time covers the 30 s clear_to_send timeout.
+            v2p.gated = False
+            v2p.deliver_all()
+            s.quiesce()
+            t0 = S.now()
+            while th.is_alive() and S.now() - t0 < 40.0:
+                s.advance(0.5)
+                s.quiesce()
+            out["rekey"] = res.get("rekey", "never-returned")
         out["replies"] = [(t, raw) for t, raw in CF.sent_since(victim, m0)]
         out["rcvd"] = [(t, q) for t, q, _ in victim.packetizer.rcvd[r0:]]
         out["active"] = victim.is_active()
         out["peer_active"] = peer.is_active()
-        out["exc"] = victim.saved_exception
+        out["exc"] = victim.saved_exception or res.get("exc")
         works = []
         if out["active"]:
             try:
@@ -88,7 +155,7 @@ def execute(role, state, sends):
         p.close()
         s.quiesce()
 
-    ex, hung = CF.run(body, horizon=60.0, step_budget=20_000)
+    ex, hung = CF.run(body, horizon=100.0, step_budget=60_000)
     out["outcome"] = ex.outcome
     out["error"] = repr(ex.error) if ex.error is not None else None
     out["hung"] = hung
@@ -106,7 +173,8 @@ def judge(role, state, sends, o):
             return [("unimplemented-answered(endless-exchange):type-3-unimplemented", o["error"])]
         return [("no-quiescence(%s):%s" % (o["outcome"], worst), {"error": o["error"], "replies": len(un)})]
     replies = [raw for t, raw in o["replies"] if t == MSG_UNIMPLEMENTED]
-    got = [int.from_bytes(raw[1:5], "big") for raw in replies]
+    # a reply "carries the sequence number" iff its body is exactly that uint32 (anything else decodes to -1)
+    got = [int.from_bytes(raw[1:5], "big") if len(raw) == 5 else -1 for raw in replies]
     want = [q for (t, _), q in zip(sends, o["seqs"]) if t != MSG_UNIMPLEMENTED]
     if not o["active"]:
         e = o["exc"]
@@ -119,14 +187,20 @@ def judge(role, state, sends, o):
                   {"exception": CF.exc_brief(e), "replies_seen": got, "wanted": want}))
         return v
     if got != want:
+        # keep the recorded detail small: a window around the first difference
+        k = next((i for i, (x, y) in enumerate(zip(got, want)) if x != y), min(len(got), len(want)))
+        d = {"first_difference_at": k, "got": got[max(0, k - 1):k + 4], "want": want[max(0, k - 1):k + 4],
+             "replies": len(got), "expected_replies": len(want)}
         if any(t == MSG_UNIMPLEMENTED for t, _ in sends) and len(got) > len(want):
-            v.append(("unimplemented-answered:type-3-unimplemented", {"got": got, "want": want}))
+            v.append(("unimplemented-answered:type-3-unimplemented", d))
         elif len(got) < len(want):
-            v.append(("no-unimplemented-reply:%s" % worst, {"got": got, "want": want}))
+            v.append(("no-unimplemented-reply:%s" % worst, d))
         elif len(got) > len(want):
-            v.append(("multiple-replies:%s" % worst, {"got": got, "want": want}))
+            v.append(("multiple-replies:%s" % worst, d))
         else:
-            v.append(("wrong-seqno-in-reply:%s" % worst, {"got": got, "want": want}))
+            v.append(("wrong-seqno-in-reply:%s" % worst, d))
+    if state == "rekey" and o.get("rekey") != "ok":
+        v.append(("re-exchange-not-completed:%s" % worst, {"rekey": o.get("rekey")}))
     bad = [n for n, ok in o["works"] if not ok]
     if bad:
         v.append(("session-not-working(%s):%s" % (bad[0], worst), {"works": o["works"]}))
@@ -135,9 +209,11 @@ def judge(role, state, sends, o):
 
 def run_cases(item, acc):
     for case in item:
-        role, state, sends, label = case
-        o = execute(role, state, sends)
+        role, state, sends, label, age = case
+        o = execute(role, state, sends, age)
         acc.ev()
+        if state == "rekey" and o["outcome"] == "ok" and not o.get("in_rekey_window"):
+            raise RuntimeError("C12 harness: victim was not inside the re-exchange window (%s)" % role)
         if o.get("expected_packet"):
             raise RuntimeError("C12 harness: victim still expects %r in state %s" % (o["expected_packet"], state))
         for t, _ in sends:
@@ -147,6 +223,14 @@ def run_cases(item, acc):
         for t, pl in sends:
             if t in reached:
                 acc.nt((role, state, t))
+        if age is not None and o.get("seqs"):
+            acc.count("aged_link_executions")
+            pairs = list(zip(o["seqs"], o["seqs"][1:]))
+            for name, bnd in SEQ_BOUNDARIES:
+                if any((a < bnd <= b) if bnd < 1 << 32 else (b < a) for a, b in pairs):
+                    acc.nt((role, state, "seq-boundary", name))
+        if state == "rekey":
+            acc.count("executions_inside_re_exchange_window")
         acc.count("executions")
         acc.count("packets_sent", len(sends))
         acc.count("unimplemented_replies_seen",
@@ -156,11 +240,13 @@ def run_cases(item, acc):
             acc.cmax("max_chain_length", len(sends))
         vs = judge(role, state, sends, o)
         for key, detail in vs:
-            acc.violation(key, {"role": role, "state": state, "label": label,
+            acc.violation(key, {"role": role, "state": state, "label": label, "first_seqno": age,
                                 "ptypes": [t for t, _ in sends][:8], "detail": detail},
-                          {"role": role, "state": state, "sends": [[t, pl.hex()] for t, pl in sends]})
+                          {"role": role, "state": state, "age": age,
+                           "sends": [[t, pl.hex()] for t, pl in sends]})
         if not vs and len(acc.samples) < 2:
             acc.sample({"victim": role, "state": state, "ptype": [t for t, _ in sends][:6], "payload": label,
+                        "link_aged_to": age,
                         "offending_seqno": o["seqs"][:6],
                         "replies": [raw.hex() for t, raw in o["replies"] if t == MSG_UNIMPLEMENTED][:6],
                         "still_active": o["active"], "works": o["works"]})
@@ -170,6 +256,8 @@ def probe(role, state):
     o = execute(role, state, [])
     if o["outcome"] != "ok" or not o["active"]:
         raise RuntimeError("C12 harness: honest session failed: %r" % (o,))
+    if state == "rekey" and (o.get("rekey") != "ok" or not o.get("in_rekey_window")):
+        raise RuntimeError("C12 harness: honest re-exchange failed: %r" % (o,))
     return o["unhandled"]
 
 
@@ -180,16 +268,27 @@ def cases(tier):
         for state in STATES:
             u = probe(role, state)
             unh[(role, state)] = u
+            pls = payloads(tier)
+            if state == "rekey" and tier == "quick":
+                pls = pls[2:]       # quick: one payload shape per type inside the re-exchange window
             for t in u:
-                for label, pl in payloads(tier):
-                    out.append((role, state, [(t, pl)], label))
+                for label, pl in pls:
+                    out.append((role, state, [(t, pl)], label, None))
             named = [t for t in u if t in MSG_NAMES]
-            out.append((role, state, [(t, b"\0\0\0\7") for t in named], "chain-named"))
-            out.append((role, state, [(t, b"\0\0\0\7") for t in u], "chain-all"))
+            out.append((role, state, [(t, b"\0\0\0\7") for t in named], "chain-named", None))
+            out.append((role, state, [(t, b"\0\0\0\7") for t in u], "chain-all", None))
+            # sequence-number dimension: the chain straddles each boundary (two packets below it, the
+            # rest at/above; for the wrap half the chain on either side)
+            for name, bnd in SEQ_BOUNDARIES:
+                below = len(u) // 2 if bnd == 1 << 32 else 2
+                out.append((role, state, [(t, b"\0\0\0\7") for t in u], "chain-all@seq-" + name, bnd - below))
             if tier == "thorough":
-                out.append((role, state, [(t, b"") for t in reversed(u)], "chain-all-reversed"))
+                out.append((role, state, [(t, b"") for t in reversed(u)], "chain-all-reversed", None))
                 out.append((role, state, [(t, core.filler(64, t)) for t in named for _ in range(3)],
-                            "chain-named-x3"))
+                            "chain-named-x3", None))
+                for name, bnd in SEQ_BOUNDARIES:
+                    out.append((role, state, [(t, core.filler(64, t)) for t in reversed(u)],
+                                "chain-all-reversed@seq-" + name, bnd - len(u) + 2))
     return out, unh
 
 
@@ -197,13 +296,20 @@ def main(tier):
     ck = core.Check(PID, tier, "exploration",
                     "case = (victim role, state, ptype without a live handler, payload shape); nontrivial = "
                     "distinct (role, state, ptype) whose packet was read by the victim's run loop (seen in "
-                    "its receive trace) while no handler table had an entry for it",
+                    "its receive trace) while no handler table had an entry for it (state rekey: while the victim "
+                    "was in_kex with clear_to_send cleared and expected no particular packet), plus distinct "
+                    "(role, state, sequence-number boundary) straddled by the offending packets of an aged link",
                     ["peer = real paramiko Transport (authenticated) emitting the raw packet via _send_message",
                      "default algorithms (curve25519 / aes-ctr / hmac-sha2) with strict kex",
-                     "reaction judged at quiescence of both transports"])
+                     "reaction judged at quiescence of both transports",
+                     "aged link = both ends' packet counters of the idle peer->victim direction fast-forwarded "
+                     "consistently (equivalent to that many packets having been exchanged)",
+                     "re-exchange state: the peer's reader skips UNIMPLEMENTED; virtual time covers the 30 s "
+                     "clear_to_send timeout"])
     cs, unh = cases(tier)
     ck.extra["unhandled_types_per_state"] = {"%s/%s" % k: len(v) for k, v in unh.items()}
-    ck.extra["bound"] = "ptype 0..255 x %d payload shapes x 2 roles x 2 states + chains" % len(payloads(tier))
+    ck.extra["bound"] = ("ptype 0..255 x %d payload shapes x 2 roles x 3 states + chains + chains x %d "
+                         "sequence-number boundaries" % (len(payloads(tier)), len(SEQ_BOUNDARIES)))
     ck.merge(core.pmap(enum.chunks(cs, 64 if tier == "quick" else 128), run_cases))
     return ck.finish()
 
@@ -211,8 +317,10 @@ def main(tier):
 def replay(rec):
     r = rec["replay"]
     sends = [(t, bytes.fromhex(h)) for t, h in r["sends"]]
-    o = execute(r["role"], r["state"], sends)
-    print("victim=%s state=%s ptypes=%s" % (r["role"], r["state"], [t for t, _ in sends][:12]))
+    o = execute(r["role"], r["state"], sends, r.get("age"))
+    print("victim=%s state=%s first_seqno=%s ptypes=%s" % (r["role"], r["state"], r.get("age"),
+                                                          [t for t, _ in sends][:12]))
+    print("re-exchange:", o.get("rekey"))
     print("offending seqnos:", o.get("seqs"))
     print("victim sent afterwards:", [(t, raw.hex()) for t, raw in o.get("replies", [])][:12])
     print("active:", o.get("active"), "exception:", CF.exc_brief(o.get("exc")), "works:", o.get("works"))
